@@ -57,6 +57,7 @@ type c01issThread struct {
 	Newer    bool   `json:"newer,omitempty"`    // ari: storage holds newer renewal info
 	Cb       bool   `json:"cb,omitempty"`       // acct: NewAccountFunc configured
 	Email    string `json:"email,omitempty"`    // acct: account e-mail address
+	Store    int    `json:"store,omitempty"`    // index of the storage this instance uses (cases with several separate storages in one process)
 }
 
 type c01issSeed struct {
@@ -88,7 +89,10 @@ type c01issCase struct {
 	// nothing else can run: a slow holder. A waiter must still be waiting afterwards (FileStorage keeps the
 	// lock file fresh beyond the staleness bound).
 	HoldMs map[string]int `json:"hold_ms,omitempty"`
-	Class  string         `json:"class"`
+	// number of separate storages (default 1). Instances on different storages share nothing but the
+	// process: in particular the package-level record of held locks, which is keyed by lock name only.
+	Stores int    `json:"stores,omitempty"`
+	Class  string `json:"class"`
 }
 
 type c01issStep struct {
@@ -183,7 +187,8 @@ type c01issRT struct {
 
 type c01issEnv struct {
 	cs       c01issCase
-	b        c01Backend
+	b        c01Backend   // storage 0 (and the shared log)
+	bs       []c01Backend // all storages
 	ca       *doubles.CA
 	names    c01Intern
 	lockT    c01Intern
@@ -285,7 +290,16 @@ func (e *c01issEnv) seed() error {
 	for i, s := range e.cs.Seeds {
 		ascii := c01ToASCII(s.Name)
 		nm := certmagic.StorageKeys.Safe(ascii)
-		n := e.names.id(nm)
+		put := func(key string, v []byte, init func(n int) []int) {
+			for si, b := range e.bs {
+				b.Put(key, v)
+				pf := ""
+				if si > 0 {
+					pf = strconv.Itoa(si) + "|"
+				}
+				e.obs.Init = append(e.obs.Init, init(e.names.id(pf+nm)))
+			}
+		}
 		nb, na := time.Now().Add(-time.Hour), time.Now().Add(89*24*time.Hour)
 		due := 0
 		if s.Kind == "due" {
@@ -316,20 +330,17 @@ func (e *c01issEnv) seed() error {
 			kid += 100
 		}
 		if putK {
-			e.b.Put(kk, keyPEM)
-			e.obs.Init = append(e.obs.Init, []int{0, n, 0, 0, kid, 0, 0})
+			put(kk, keyPEM, func(n int) []int { return []int{0, n, 0, 0, kid, 0, 0} })
 		}
 		if putC {
-			e.b.Put(kc, chain)
 			ckid := kid
 			if s.Kind == "mismatch" {
 				ckid = kid - 100
 			}
-			e.obs.Init = append(e.obs.Init, []int{0, n, 1, 1, cid, ckid, due})
+			put(kc, chain, func(n int) []int { return []int{0, n, 1, 1, cid, ckid, due} })
 		}
 		if putM {
-			e.b.Put(km, meta)
-			e.obs.Init = append(e.obs.Init, []int{0, n, 2, 2, cid, 0, 0})
+			put(km, meta, func(n int) []int { return []int{0, n, 2, 2, cid, 0, 0} })
 		}
 	}
 	switch e.cs.LastClean {
@@ -341,7 +352,9 @@ func (e *c01issEnv) seed() error {
 			rec = 0
 		}
 		b, _ := json.Marshal(map[string]any{"tls": map[string]any{"timestamp": ts, "instance_id": "seed"}})
-		e.b.Put("last_clean.json", b)
+		for _, bk := range e.bs {
+			bk.Put("last_clean.json", b)
+		}
 		e.obs.Init = append(e.obs.Init, []int{2, 0, 0, 4, rec, 0, 0})
 	}
 	return nil
@@ -356,7 +369,10 @@ func c01B2i(b bool) int {
 
 func (e *c01issEnv) setupThread(i int, sp c01issThread) (*c01issRT, error) {
 	rt := &c01issRT{id: i, spec: sp, inst: "t" + strconv.Itoa(i), usedF: map[string]bool{}}
-	rt.storage = e.b.Handle(rt.inst)
+	if sp.Store < 0 || sp.Store >= len(e.bs) {
+		return nil, fmt.Errorf("thread %d: no storage %d", i, sp.Store)
+	}
+	rt.storage = e.bOf(rt).Handle(rt.inst)
 	iss := &c01issIssuer{e: e, rt: rt}
 	tmpl := certmagic.Config{ReusePrivateKeys: sp.Reuse, DisableStorageCheck: sp.NoChk}
 	tmpl.OnEvent = func(ctx context.Context, event string, data map[string]any) error {
@@ -434,7 +450,7 @@ func (e *c01issEnv) setupThread(i int, sp c01issThread) (*c01issRT, error) {
 		rt.lockKey = certmagic.VerifLocksAccountRegLockKey(email)
 		reg, key := certmagic.VerifLocksAccountStorageKeys(rt.acme, c09CA.URL, email)
 		nm := "acct:" + email
-		vk = e.names.id(nm)
+		vk = e.names.id(e.pfx(rt) + nm)
 		pk = vk
 		if _, done := e.acctName[nm]; !done {
 			e.acctName[nm] = [2]string{reg, key}
@@ -442,14 +458,14 @@ func (e *c01issEnv) setupThread(i int, sp c01issThread) (*c01issRT, error) {
 			e.acctKeys[key] = [2]int{vk, 0}
 			if kind := e.cs.AcctSeed[email]; kind != "" {
 				regJSON, _ := json.Marshal(acme.Account{Status: "valid", Contact: []string{"mailto:" + email}, Location: c09CA.Base + "/acct/seeded"})
-				e.b.Put(reg, regJSON)
+				e.bOf(rt).Put(reg, regJSON)
 				e.obs.Init = append(e.obs.Init, []int{0, vk, 2, 2, 0, 0, 0})
 				if kind == "full" {
 					_, _, keyPEM, err := e.ca.Leaf(doubles.LeafOpts{Names: []string{"acct.example"}, Serial: 4900})
 					if err != nil {
 						return nil, err
 					}
-					e.b.Put(key, keyPEM)
+					e.bOf(rt).Put(key, keyPEM)
 					e.obs.Init = append(e.obs.Init, []int{0, vk, 0, 0, 0, 0, 0})
 				}
 			}
@@ -472,9 +488,9 @@ func (e *c01issEnv) setupThread(i int, sp c01issThread) (*c01issRT, error) {
 			idata, _ := json.Marshal(acme.Certificate{RenewalInfo: &ri})
 			meta, _ := json.MarshalIndent(certmagic.CertificateResource{SANs: []string{rt.ascii}, IssuerData: idata}, "", "\t")
 			_, _, km := e.siteKeys(certmagic.StorageKeys.Safe(rt.ascii))
-			e.b.Put(km, meta)
+			e.bOf(rt).Put(km, meta)
 		}
-		vk = e.names.id(certmagic.StorageKeys.Safe(cert.Names[0]))
+		vk = e.names.id(e.pfx(rt) + certmagic.StorageKeys.Safe(cert.Names[0]))
 		if sp.Newer {
 			for _, in := range e.obs.Init {
 				if in[0] == 0 && in[1] == vk && in[2] == 2 {
@@ -485,11 +501,11 @@ func (e *c01issEnv) setupThread(i int, sp c01issThread) (*c01issRT, error) {
 		pk = vk
 	default:
 		rt.lockKey = certmagic.VerifLocksIssueLockKey(rt.cfg, rt.eff)
-		pk = e.names.id(certmagic.StorageKeys.Safe(rt.eff))
-		vk = e.names.id(certmagic.StorageKeys.Safe(rt.ascii))
-		idn = e.ids.id("dbl:" + strings.ToLower(rt.ascii))
+		pk = e.names.id(e.pfx(rt) + certmagic.StorageKeys.Safe(rt.eff))
+		vk = e.names.id(e.pfx(rt) + certmagic.StorageKeys.Safe(rt.ascii))
+		idn = e.ids.id(e.pfx(rt) + "dbl:" + strings.ToLower(rt.ascii))
 	}
-	lk = e.lockT.id(e.b.LockID(rt.lockKey))
+	lk = e.lockID(rt, rt.lockKey)
 	e.obs.Cfgs = append(e.obs.Cfgs, []int{progCode, flag, lk, pk, vk, idn, c01B2i(sp.Reuse), c01B2i(!sp.NoChk), c01B2i(sp.Force), c01B2i(sp.IssDue)})
 	return rt, nil
 }
@@ -622,7 +638,7 @@ func c01KindOfSuffix(key string) int {
 }
 
 // siteKey parses certificates/dbl/<nm>/<nm>.<ext>
-func (e *c01issEnv) siteKey(key string) (n, kind int, ok bool) {
+func (e *c01issEnv) siteKey(rt *c01issRT, key string) (n, kind int, ok bool) {
 	p := strings.Split(key, "/")
 	if len(p) != 4 || p[0] != "certificates" || p[1] != "dbl" {
 		return 0, 0, false
@@ -635,7 +651,7 @@ func (e *c01issEnv) siteKey(key string) (n, kind int, ok bool) {
 	if base != p[2] {
 		return 0, 0, false
 	}
-	return e.names.id(p[2]), kind, true
+	return e.names.id(e.pfx(rt) + p[2]), kind, true
 }
 
 func (e *c01issEnv) encodeOp(rt *c01issRT, op doubles.Op) ([4]int, string) {
@@ -643,11 +659,11 @@ func (e *c01issEnv) encodeOp(rt *c01issRT, op doubles.Op) ([4]int, string) {
 	desc := op.Kind + " " + op.Key
 	switch op.Kind {
 	case "Lock":
-		return [4]int{6, e.lockT.id(e.b.LockID(op.Key)), 0, 0}, desc
+		return [4]int{6, e.lockID(rt, op.Key), 0, 0}, desc
 	case "LockAcquired":
-		return [4]int{7, e.lockT.id(e.b.LockID(op.Key)), 0, 0}, desc
+		return [4]int{7, e.lockID(rt, op.Key), 0, 0}, desc
 	case "Unlock":
-		return [4]int{8, e.lockT.id(e.b.LockID(op.Key)), 0, 0}, desc
+		return [4]int{8, e.lockID(rt, op.Key), 0, 0}, desc
 	case "Event":
 		ev := map[string]int{"cert_obtaining": 0, "cert_obtained": 1, "cert_failed": 2, "cached_managed_cert": 3, "new_account_func": 4}
 		c, ok := ev[op.Key]
@@ -656,9 +672,9 @@ func (e *c01issEnv) encodeOp(rt *c01issRT, op doubles.Op) ([4]int, string) {
 		}
 		return [4]int{9, c, 0, 0}, desc
 	case "IssueStart":
-		return [4]int{10, e.ids.id(op.Key), 0, 0}, desc
+		return [4]int{10, e.ids.id(e.pfx(rt) + op.Key), 0, 0}, desc
 	case "IssueEnd":
-		return [4]int{11, e.ids.id(op.Key), 0, 0}, desc
+		return [4]int{11, e.ids.id(e.pfx(rt) + op.Key), 0, 0}, desc
 	case "AriGet":
 		return [4]int{12, 0, 0, 0}, desc
 	case "CAReq":
@@ -684,7 +700,7 @@ func (e *c01issEnv) encodeOp(rt *c01issRT, op doubles.Op) ([4]int, string) {
 		if strings.HasPrefix(op.Key, "rw_test_") {
 			return [4]int{code, 1, rt.id, 0}, op.Kind + " rw_test_*"
 		}
-		if n, k, ok := e.siteKey(op.Key); ok && rt.spec.Prog != "clean" {
+		if n, k, ok := e.siteKey(rt, op.Key); ok && rt.spec.Prog != "clean" {
 			return [4]int{code, 0, n, k}, desc
 		}
 		if op.Kind == "Load" && strings.HasPrefix(op.Key, "ocsp/") && rt.spec.Prog != "clean" {
@@ -697,8 +713,8 @@ func (e *c01issEnv) encodeOp(rt *c01issRT, op doubles.Op) ([4]int, string) {
 	return [4]int{99, 0, 0, 0}, desc
 }
 
-func (e *c01issEnv) existsNow(key string) bool {
-	for _, k := range e.b.Keys() {
+func (e *c01issEnv) existsNow(rt *c01issRT, key string) bool {
+	for _, k := range e.bOf(rt).Keys() {
 		if k == key || strings.HasPrefix(k, key+"/") {
 			return true
 		}
@@ -730,7 +746,7 @@ func (e *c01issEnv) faultFor(rt *c01issRT, a *c01issArrival) int {
 	if f == c01fNone && rt.nops >= 70 && a.op.Kind != "Unlock" && !rt.canc {
 		f = c01fCancel
 	}
-	if _, _, ok := e.siteKey(a.op.Key); ok && (a.op.Kind == "Store" || a.op.Kind == "Delete") && !e.cs.AllowSaveFault && rt.spec.Prog != "ari" && rt.spec.Prog != "clean" {
+	if _, _, ok := e.siteKey(rt, a.op.Key); ok && (a.op.Kind == "Store" || a.op.Kind == "Delete") && !e.cs.AllowSaveFault && rt.spec.Prog != "ari" && rt.spec.Prog != "clean" {
 		f = c01fNone
 	}
 	if a.op.Kind == "Unlock" && (f == c01fErr || f == c01fPanic) && !e.cs.AllowUnlockFault {
@@ -739,7 +755,21 @@ func (e *c01issEnv) faultFor(rt *c01issRT, a *c01issArrival) int {
 	return f
 }
 
-func (e *c01issEnv) holdsLock(rt *c01issRT) bool { return e.b.LockOwner(rt.lockKey) == rt.inst }
+func (e *c01issEnv) holdsLock(rt *c01issRT) bool { return e.bOf(rt).LockOwner(rt.lockKey) == rt.inst }
+
+func (e *c01issEnv) bOf(rt *c01issRT) c01Backend { return e.bs[rt.spec.Store] }
+
+// pfx distinguishes the name / lock / identifier classes of separate storages (nothing for storage 0)
+func (e *c01issEnv) pfx(rt *c01issRT) string {
+	if rt.spec.Store == 0 {
+		return ""
+	}
+	return strconv.Itoa(rt.spec.Store) + "|"
+}
+
+func (e *c01issEnv) lockID(rt *c01issRT, name string) int {
+	return e.lockT.id(e.pfx(rt) + e.bOf(rt).LockID(name))
+}
 
 // wouldOverlap: granting rt's pending gate would let an unlocked manage load overlap a save window
 func (e *c01issEnv) wouldOverlap(rt *c01issRT) bool {
@@ -747,20 +777,20 @@ func (e *c01issEnv) wouldOverlap(rt *c01issRT) bool {
 		return false
 	}
 	op := rt.gate.op
-	_, k, ok := e.siteKey(op.Key)
+	_, k, ok := e.siteKey(rt, op.Key)
 	if !ok || k != 0 {
 		return false
 	}
 	if op.Kind == "Store" {
 		for _, o := range e.threads {
-			if o != rt && o.midLoad {
+			if o != rt && o.spec.Store == rt.spec.Store && o.midLoad {
 				return true
 			}
 		}
 	}
 	if op.Kind == "Load" && (rt.spec.Prog == "manage" || rt.spec.Prog == "handshake") && !e.holdsLock(rt) {
 		for _, o := range e.threads {
-			if o != rt && o.inSave {
+			if o != rt && o.spec.Store == rt.spec.Store && o.inSave {
 				return true
 			}
 		}
@@ -850,13 +880,13 @@ func (e *c01issEnv) stepThread(rt *c01issRT) error {
 	kind := a.op.Kind
 	exists := false
 	if kind == "Exists" {
-		exists = e.existsNow(a.op.Key)
+		exists = e.existsNow(rt, a.op.Key)
 	}
-	lockHeld := kind == "Lock" && e.b.LockOwner(a.op.Key) != ""
+	lockHeld := kind == "Lock" && e.bOf(rt).LockOwner(a.op.Key) != ""
 	var waiters []*c01issRT
 	if kind == "Unlock" {
 		for _, o := range e.threads {
-			if o.state == c01stBlocked && e.b.LockID(o.waitLock) == e.b.LockID(a.op.Key) {
+			if o.state == c01stBlocked && o.spec.Store == rt.spec.Store && e.bOf(rt).LockID(o.waitLock) == e.bOf(rt).LockID(a.op.Key) {
 				waiters = append(waiters, o)
 			}
 		}
@@ -936,7 +966,7 @@ func (e *c01issEnv) stepThread(rt *c01issRT) error {
 	e.obs.Sched = append(e.obs.Sched, rt.id)
 	if hung {
 		e.obs.Deadlock = true
-		e.obs.Steps = append(e.obs.Steps, c01issStep{Tid: rt.id, Fault: c01fNone, Op: [4]int{7, e.lockT.id(e.b.LockID(a.op.Key)), 0, 0}, Out: 2,
+		e.obs.Steps = append(e.obs.Steps, c01issStep{Tid: rt.id, Fault: c01fNone, Op: [4]int{7, e.lockID(rt, a.op.Key), 0, 0}, Out: 2,
 			Desc: "HUNG: the lock file of a dead holder was not taken over within the bound; request cancelled by the driver"})
 		e.obs.Sched = append(e.obs.Sched, rt.id)
 	}
@@ -950,7 +980,7 @@ func (e *c01issEnv) stepThread(rt *c01issRT) error {
 		e.obs.Issues++
 	}
 	// save / load windows
-	if _, k, ok := e.siteKey(a.op.Key); ok && rt.spec.Prog != "clean" {
+	if _, k, ok := e.siteKey(rt, a.op.Key); ok && rt.spec.Prog != "clean" {
 		switch kind {
 		case "Store":
 			if out != 0 {
@@ -987,7 +1017,7 @@ func (e *c01issEnv) stepThread(rt *c01issRT) error {
 	}
 	for _, m := range e.threads {
 		for _, s := range e.threads {
-			if m != s && m.midLoad && s.inSave {
+			if m != s && m.spec.Store == s.spec.Store && m.midLoad && s.inSave {
 				e.obs.Overlap = true
 			}
 		}
@@ -1033,7 +1063,7 @@ func (e *c01issEnv) cancelBlocked(rt *c01issRT) error {
 	if err := e.wait(1); err != nil {
 		return err
 	}
-	e.obs.Steps = append(e.obs.Steps, c01issStep{Tid: rt.id, Fault: c01fCancel, Op: [4]int{7, e.lockT.id(e.b.LockID(rt.waitLock)), 0, 0}, Out: 2, Desc: "cancelled while waiting for " + rt.waitLock})
+	e.obs.Steps = append(e.obs.Steps, c01issStep{Tid: rt.id, Fault: c01fCancel, Op: [4]int{7, e.lockID(rt, rt.waitLock), 0, 0}, Out: 2, Desc: "cancelled while waiting for " + rt.waitLock})
 	e.obs.Sched = append(e.obs.Sched, rt.id)
 	return nil
 }
@@ -1044,20 +1074,32 @@ var c01issRetryOnce sync.Once
 func c01RunIssCase(cs c01issCase) (*c01issObs, error) {
 	c01issCAOnce.Do(func() { c01issCA = doubles.NewCA("issuance harness CA") })
 	c01issRetryOnce.Do(func() { certmagic.VerifLocksSetRetryIntervals([]time.Duration{3 * time.Millisecond}) })
-	var be c01Backend
-	if cs.Backend == "file" {
-		fb, err := c01NewFileBackend()
-		if err != nil {
-			return nil, err
+	var bs []c01Backend
+	var sharedLog *doubles.Log
+	for si := 0; si < cs.Stores || si == 0; si++ {
+		var be c01Backend
+		if cs.Backend == "file" {
+			fb, err := c01NewFileBackend()
+			if err != nil {
+				return nil, err
+			}
+			if sharedLog != nil {
+				fb.log = sharedLog // one log, one gate for all storages
+			}
+			be = fb
+		} else {
+			mb := doubles.NewMemBackend()
+			mb.HonourCtx = true
+			if sharedLog != nil {
+				mb.Log = sharedLog
+			}
+			be = c01MemBackend{mb}
 		}
-		be = fb
-	} else {
-		mb := doubles.NewMemBackend()
-		mb.HonourCtx = true
-		be = c01MemBackend{mb}
+		sharedLog = be.GetLog()
+		defer be.Close()
+		bs = append(bs, be)
 	}
-	defer be.Close()
-	e := &c01issEnv{cs: cs, b: be, ca: c01issCA, arrivals: make(chan *c01issArrival, 64), rnd: rand.New(rand.NewSource(cs.SchedSeed)),
+	e := &c01issEnv{cs: cs, b: bs[0], bs: bs, ca: c01issCA, arrivals: make(chan *c01issArrival, 64), rnd: rand.New(rand.NewSource(cs.SchedSeed)),
 		acctKeys: map[string][2]int{}, acctName: map[string][2]string{}}
 	if err := e.seed(); err != nil {
 		return nil, err
@@ -1149,13 +1191,19 @@ func c01RunIssCase(cs c01issCase) (*c01issObs, error) {
 		o.Seen = append(o.Seen, seen)
 	}
 	for n, nm := range e.names.l {
+		bk := e.b
+		if i := strings.Index(nm, "|"); i > 0 { // "<storage>|<name>"
+			if si, err := strconv.Atoi(nm[:i]); err == nil && si < len(e.bs) {
+				bk, nm = e.bs[si], nm[i+1:]
+			}
+		}
 		kk, kc, km := e.siteKeys(nm)
 		if ak, ok := e.acctName[nm]; ok {
 			km, kk = ak[0], ak[1]
 		}
-		kb, hk := e.b.Get(kk)
-		cb, hc := e.b.Get(kc)
-		_, hm := e.b.Get(km)
+		kb, hk := bk.Get(kk)
+		cb, hc := bk.Get(kc)
+		_, hm := bk.Get(km)
 		match, cid := 0, 0
 		if hc {
 			if blk, _ := pem.Decode(cb); blk != nil {
@@ -1171,21 +1219,30 @@ func c01RunIssCase(cs c01issCase) (*c01issObs, error) {
 		}
 		o.Final = append(o.Final, []int{n, c01B2i(hk), c01B2i(hc), c01B2i(hm), match, cid})
 	}
-	for _, k := range e.b.Keys() {
-		if strings.HasPrefix(k, "rw_test_") {
-			o.RwLeft++
+	heldAll := func() int {
+		n := 0
+		for _, bk := range e.bs {
+			n += len(bk.HeldLocks())
 		}
-		if k == "last_clean.json" {
-			o.LastPresent = 1
+		return n
+	}
+	for _, bk := range e.bs {
+		for _, k := range bk.Keys() {
+			if strings.HasPrefix(k, "rw_test_") {
+				o.RwLeft++
+			}
+			if k == "last_clean.json" {
+				o.LastPresent = 1
+			}
 		}
 	}
-	o.Held = len(e.b.HeldLocks())
+	o.Held = heldAll()
 	o.Recorded = certmagic.VerifLocksHeldCount()
 	if o.Held > 0 || o.Recorded > 0 {
 		// what a process does at exit: everything that is still held must be in the record and get released
 		e.b.GetLog().SetHook(nil)
 		certmagic.CleanUpOwnLocks(context.Background(), zap.NewNop())
-		o.AfterCleanup = len(e.b.HeldLocks()) + certmagic.VerifLocksHeldCount()
+		o.AfterCleanup = heldAll() + certmagic.VerifLocksHeldCount()
 	}
 	o.Names = e.names.l
 	o.LockNames = e.lockT.l
